@@ -31,6 +31,62 @@ Proof.
 Qed.
 
 (* ------------------------------------------------------------------------------------------
+   The invariant theorems stated over histories (run from n nested empty scopes). *)
+Lemma unique_names_run : forall n ops T,
+    let st := run (init_state n) ops in
+    In T (all_tables st) ->
+    NoDup (keys T) /\ NoDup (sids T) /\
+    (forall k s, In (k, s) (t_syms T) -> k = normalize (s_name (hget (st_heap st) s))) /\
+    (forall k1 s1 k2 s2, In (k1, s1) (t_syms T) -> In (k2, s2) (t_syms T) ->
+                         normalize (s_name (hget (st_heap st) s1)) = normalize (s_name (hget (st_heap st) s2)) ->
+                         s1 = s2).
+Proof. intros n ops T st. apply unique_names_inv_. apply reachable_run. Qed.
+
+Lemma tags_run : forall n ops T,
+    In T (all_tables (run (init_state n) ops)) ->
+    NoDup (map fst (t_tags T)) /\ forall tg s, In (tg, s) (t_tags T) -> In s (sids T).
+Proof. intros n ops T. apply tags_inv_. apply reachable_run. Qed.
+
+Lemma one_owner_run : forall n ops, NoDup (flat_map sids (all_tables (run (init_state n) ops))).
+Proof. intros n ops. apply ownership_inv_. apply reachable_run. Qed.
+
+Lemma lookup_sound_run : forall n ops t T name s,
+    let st := run (init_state n) ops in
+    get_table st t = Some T -> lookup T (ancestors st t) name = Some s ->
+    normalize (s_name (hget (st_heap st) s)) = normalize name.
+Proof. intros n ops t T name s st. apply lookup_sound_. apply reachable_run. Qed.
+
+Lemma fresh_name_no_clash_run : forall n ops t T root shadowing other nm,
+    let st := run (init_state n) ops in
+    get_table st t = Some T ->
+    (forall Ot, other = Some Ot -> exists ot, get_table st ot = Some Ot) ->
+    next_available_name T (ancestors st t) root shadowing other = Some nm ->
+    forall P k s,
+      (P = T \/ (shadowing = false /\ In P (ancestors st t)) \/ other = Some P) ->
+      In (k, s) (t_syms P) ->
+      normalize (s_name (hget (st_heap st) s)) <> normalize nm.
+Proof. intros n ops t T root shadowing other nm st. apply fresh_name_no_clash_. apply reachable_run. Qed.
+
+Lemma merge_hypotheses_run : forall n ops t j T Ot,
+    let st := run (init_state n) ops in
+    get_table st t = Some T -> nth_error (st_det st) j = Some Ot ->
+    (match t with TDet j' => Nat.eqb j' j | _ => false end) = false ->
+    TOK (st_heap st) T /\ TOK (st_heap st) Ot /\ (forall s, In s (sids T) -> ~ In s (sids Ot)).
+Proof. intros n ops t j T Ot st. apply reachable_merge_pre. apply reachable_run. Qed.
+
+Lemma merge_rejected_unchanged_both : forall st t j skip T Ot m oe st' r,
+    get_table st t = Some T -> nth_error (st_det st) j = Some Ot ->
+    merge (st_heap st) T (ancestors st t) Ot skip = (m, MRejected, oe) ->
+    (m_self m = T /\ m_other m = Ot) /\
+    (no_intrinsic_unresolved (st_heap st) T ->
+     step st (OMerge t j skip) = (st', r) -> st' = st).
+Proof.
+  intros st t j skip T Ot m oe st' r HT HO Hm. split.
+  - destruct (merge_rejected_unchanged_partial_ _ _ _ _ _ _ _ Hm) as [A [B _]]. split; assumption.
+  - intros Hs H. eapply merge_step_rejected_unchanged_partial_; eauto.
+Qed.
+
+(* ------------------------------------------------------------------------------------------
    R1.  "a rejected operation changes nothing" is false for merge:
    (a) check_for_clashes specialises `sin` to IntrinsicSymbol in BOTH tables, then the clash on
        `x` (unresolved in both tables) raises SymbolError;
